@@ -403,7 +403,7 @@ theorem dictGetE_ok {ν : Type} {d : List (String × ν)} {k : String} {v : ν} 
   | some e =>
     rw [hf] at h
     injection h with h
-    exact ⟨e, List.mem_of_find?_eq_some hf, List.find?_some (p := fun e => e.1 == k) hf, h⟩
+    exact ⟨e, List.mem_of_find?_eq_some hf, List.find?_some (p := fun e : String × ν => e.1 == k) hf, h⟩
 
 theorem mem_rowIds {row : Row} {k : String} {c : Cell} {t : String} (hc : rowGet row k = .ok c)
     (ht : PyM.dictGetE (cellDict c) "asset_id" = .ok t) : t ∈ rowIds row := by
@@ -530,6 +530,59 @@ theorem run_get_model (uri user pw db : String) :
     rcases world_ids t ht with rfl | rfl
     · exact parse_5
     · exact parse_7
+
+/-! a second database: the same two assets and link, and an attacker (id 9) with the entry point `h.access` as
+`ingest_model` stores it (`h -[firstSteps]-> attacker`, `attacker -[access]-> h`).  Both orientations of the pair
+come back from the second query and both are turned into an entry point: the attacker ends with the entry point
+twice (two tuple objects). -/
+
+def world2 : W :=
+  { db := { nodes := world.db.nodes ++
+              [{ labels := ["Attacker"], props := [("name", "Attacker:9"), ("asset_id", "9"), ("type", "Attacker")] }]
+            rels := world.db.rels ++ [⟨0, "firstSteps", 2⟩, ⟨2, "access", 0⟩] } }
+
+def parse2 (t : String) : Except PyErr Int :=
+  if t = "9" then .ok 9 else parse0 t
+
+/-- attackers: id, name, entry points (asset reference, step names) -/
+def obsT (s : H) : List (Option Int × Option String × List (ARef × List String)) :=
+  s.attackers.map fun t => ((s.t t).id, (s.t t).name, (s.t t).entry_points.map fun r => ((s.e r).asset, (s.e r).steps))
+
+def obs2 : Except PyErr H → Option ((List (Option Int × Option String × String) × List (String × List ARef × List ARef)) ×
+    List (Option Int × Option String × List (ARef × List String)))
+  | .ok s => some (obsH s, obsT s)
+  | .error _ => none
+
+set_option synthInstance.maxSize 2048 in
+theorem run2_parse2 :
+    obs2 (getModelP parse2 world2 (envOf lang lang.assocs menv)) =
+      some (([(some 5, some "h", "Host"), (some 7, some "n", "Net")], [("NetCon", [0], [1])]),
+            [(some 9, some "Attacker:9", [(0, ["access"]), (0, ["access"])])]) := by
+  decide +kernel
+
+theorem parse_9 : pyIntOfStr "9" = .ok 9 := by
+  have h := Ser.toInt_toString 9
+  have e : toString (9 : Int) = "9" := by decide +kernel
+  rw [e] at h
+  unfold pyIntOfStr
+  rw [h]
+
+theorem world2_ids :
+    ∀ t ∈ (queryAssets world2.db ++ queryPairs world2.db).flatMap rowIds, t = "5" ∨ t = "7" ∨ t = "9" := by
+  decide +kernel
+
+/-- with an attacker: the entry point is rebuilt once per orientation of the pair of relationships -/
+theorem run2_get_model (uri user pw db : String) :
+    obs2 (Gen.get_model world2 (envOf lang lang.assocs menv) uri user pw db) =
+      some (([(some 5, some "h", "Host"), (some 7, some "n", "Net")], [("NetCon", [0], [1])]),
+            [(some 9, some "Attacker:9", [(0, ["access"]), (0, ["access"])])]) := by
+  rw [get_model_eq_P, getModelP_congr pyIntOfStr parse2]
+  · exact run2_parse2
+  · intro t ht
+    rcases world2_ids t ht with rfl | rfl | rfl
+    · exact parse_5
+    · exact parse_7
+    · exact parse_9
 
 end Sample
 
